@@ -110,6 +110,7 @@ def make(shape: Dict[str, Any]) -> Any:
 HISTS = [
     [],
     ['P1'],
+    ['P1+'],
     ['A1+'],
     ['A1+ A2+'],
     ['P1 S1+ T1+ A1+'],
@@ -119,13 +120,14 @@ HISTS = [
 ]
 FINALS = [
     'P1', 'P1u', 'P2', 'A1+', 'A2+', 'A1', 'T1b+', 'S1b+', 'P1 P2', 'A1+ A2+', 'P1 S1+ T1+ A1+',
-    'A2+ A1+', 'H1+', 'N1+', 'AAAA1+', 'Q1 P1', 'A1u+',
+    'A2+ A1+', 'H1+', 'N1+', 'AAAA1+', 'Q1 P1', 'A1u+', 'P1+',
 ]
 QUICK = [
     ([], 'P1'), ([], 'P1 S1+ T1+ A1+'), (['P1'], 'P1u'), (['P1'], 'P2'), (['A1+'], 'A2+'), (['A1+'], 'A1+'),
     (['A1+ A2+'], 'A1+'), (['A1+', 'A2+'], 'A1+'), (['A1+', 'A2+'], 'A2+ A1+'), (['T1+', 'T1b'], 'T1b+'),
     (['P1 S1+ T1+ A1+'], 'S1b+'), (['P1', 'P2'], 'P1 P2'),
     (['A1+'], 'A1u+'), (['A1+'], 'A1'), ([], 'H1+'), (['P1'], 'Q1 P1'),
+    (['P1'], 'P1+'), (['P1+'], 'P1'), (['T1'], 'T1+'),  # the same record again with the other value of the cache-flush bit
 ]
 
 
